@@ -267,9 +267,20 @@ pub fn gen_deletion(rng: &mut Rng, p: &Pools, eng: &Eng, who: Id32, style: DelSt
         }
     }
     // real requests often carry a relay hint (or more) after the target
+    // ... and some the NIP-10 style tail: relay, marker, and a pubkey - the requester's own, the target's author's,
+    // somebody else's, or no pubkey at all. None of it says who wrote the target.
     for t in tags.iter_mut() {
         if t.len() == 2 && rng.chance(1, 4) {
             t.push("wss://relay.example".into());
+            if rng.chance(1, 2) {
+                t.push(rng.pick(&["root", "reply", "mention", ""]).to_string());
+                match rng.below(5) {
+                    0 | 1 => t.push(hex(&who)),
+                    2 => t.push(hex(&rng.pick(&p.authors)[..])),
+                    3 => t.push("not-a-key".into()),
+                    _ => {}
+                }
+            }
         }
     }
     if style == DelStyle::OwnThenForeign {
